@@ -100,6 +100,39 @@ def stepOld (db : DB) (s : Stmt) : Except Err (DB × Obs) :=
 
 end Impl
 
+/-! ### `connection.execute_string` and `nop_regexes` (conn.py:128-141, cursor.py:140-143) -/
+
+/-- `execute_string`: one **new** cursor per statement, executed in order; the first rejected statement raises and
+    ends the script (the statements before it have run).  The result is the list of cursors = the list of what
+    each cursor holds. -/
+def executeString (step : DB → Stmt → Except Err (DB × Obs)) (db : DB) : List Stmt → Except Err (List Obs) × DB
+  | [] => (.ok [], db)
+  | s :: ss =>
+    match step db s with
+    | .error e => (.error e, db)
+    | .ok (db', o) =>
+      let r := executeString step db' ss
+      (r.1.map (o :: ·), r.2)
+
+/-- the same script run on ONE shared cursor (what `execute_string` must not do): every returned entry is the
+    same cursor object, so all of them show what the last statement left -/
+def executeStringShared (step : DB → Stmt → Except Err (DB × Obs)) (db : DB) (ss : List Stmt) : Except Err (List Obs) × DB :=
+  let r := executeString step db ss
+  (r.1.map fun os => os.map fun _ => os.getLast?.getD ⟨[], [], 0⟩, r.2)
+
+def lowerAscii (c : Char) : Char :=
+  if 'A'.toNat ≤ c.toNat ∧ c.toNat ≤ 'Z'.toNat then Char.ofNat (c.toNat + 32) else c
+
+/-- `re.match(word, text, re.IGNORECASE)` for a pattern that is a plain word: the text starts with it, ignoring case -/
+def matchAtStart (word text : List Char) : Bool :=
+  word.length ≤ text.length && (text.take word.length).map lowerAscii == word.map lowerAscii
+
+/-- `cursor.execute` on a connection with `nop_regexes` (plain words): a statement whose text STARTS with one of
+    the words is answered with the success status and not run; every other statement is executed normally -/
+def Impl.stepNop (words : List (List Char)) (text : List Char) (db : DB) (s : Stmt) : Except Err (DB × Obs) :=
+  if words.any (fun w => matchAtStart w text) then .ok (db, ⟨sqlSuccess.names, sqlSuccess.rows, 1⟩)
+  else Impl.step db s
+
 /-! ### DDL status rows (`cursor.py:38-46, 304-319`) -/
 
 structure Ident where
